@@ -403,7 +403,7 @@ def gen_trace(rng):
     if wfn_like and rng.random() < 0.12:
         recipe["mods"] = copy.deepcopy(rng.choice(MOD_PAIRS))
         mod = None
-    if mod is not None and (mod["op"] in ("extra_nested", "title", "set", "asym_noise", "known_extras", "tiny_cube_values") or recipe["file"].endswith((".fchk", ".molden.input", ".mkl", ".wfn", ".wfx", ".molden"))):
+    if mod is not None and (mod["op"] in ("extra_nested", "extra_nones", "title", "set", "asym_noise", "known_extras", "tiny_cube_values") or recipe["file"].endswith((".fchk", ".molden.input", ".mkl", ".wfn", ".wfx", ".molden"))):
         recipe["mods"] = [mod]
     def call():
         fmt = rng.choice(fmts) if rng.random() < 0.85 else rng.choice(sorted(OUTNAME))
